@@ -171,8 +171,12 @@ def Cli.compress (H : Bytes → Bytes) (comp : Bytes → Bytes) (c : CompressCmd
         | none => ⟨false, fs1, ops2⟩
         | some fs2 =>
           let (dict, stored) := dictionaryOf H "cli" comp c.opts inode.data
-          -- the temp file holds all stored chunks before it is re-opened (flush, F4 repair)
-          let fs3 := fs2.set tmp (.regular (if cliTempFlushedBeforeReturn then stored.flatten else []))
+          -- the stored chunks are written from offset 0 over whatever the temp file holds after the
+          -- open (nothing, if the open truncates), and are all there before it is re-opened (flush,
+          -- F4 repair)
+          let old := ((fs2.get tmp).map (·.data)).getD []
+          let written := if cliTempFlushedBeforeReturn then stored.flatten else []
+          let fs3 := fs2.set tmp (.regular (written ++ old.drop written.length))
           let tmpData := ((fs3.get tmp).map (·.data)).getD []
           let fs4 := fs3.set c.output (.regular (buildHeader H dict none ++ tmpData))
           let fs5 := fs4.remove tmp
